@@ -172,8 +172,18 @@ func (vc *VC) callAsserts(fx *FuncCtx, st *State, callee string, sig *types.Sign
 			matched = append(matched, ca)
 		}
 	}
+	if vc.seenCallees == nil {
+		vc.seenCallees = map[string]bool{}
+	}
+	vc.seenCallees[callee] = true
 	if len(matched) == 0 {
 		return
+	}
+	if vc.matchedAsserts == nil {
+		vc.matchedAsserts = map[*CallAssert]bool{}
+	}
+	for _, ca := range matched {
+		vc.matchedAsserts[ca] = true
 	}
 	vc.callSeq["$assert:"+callee]++
 	k := vc.callSeq["$assert:"+callee]
@@ -222,7 +232,7 @@ func (vc *VC) callAsserts(fx *FuncCtx, st *State, callee string, sig *types.Sign
 }
 
 func (vc *VC) callFunction(fx *FuncCtx, st *State, fn *ssa.Function, args []Val, bound []Val, rt types.Type, instr ssa.Instruction) Val {
-	if fx != nil && fx.top && fn.Synthetic == "" {
+	if fx != nil && fx.top && (fn.Synthetic == "" || len(fn.Blocks) == 0) {
 		vc.callAsserts(fx, st, funcDisplayName(fn), fn.Signature, args)
 	}
 	// synthetic wrappers (bound methods, pointer-receiver wrappers) are executed: they are tiny
@@ -727,7 +737,9 @@ func (vc *VC) callInvoke(fx *FuncCtx, st *State, c *ssa.CallCommon, recv Val, ar
 		return r
 	}
 	if im, ok := invokeModels[name]; ok {
-		return im(vc, fx, st, full, rt)
+		if r, handled := im(vc, fx, st, full, rt); handled {
+			return r
+		}
 	}
 	if m.Pkg() != nil && (purePkgs[m.Pkg().Path()] || !strings.HasPrefix(m.Pkg().Path(), repoModule) || opaqueIfacePkg(m.Pkg().Path())) {
 		// boundary interface (library, store, auth, push, media ...): no contract given. The callee cannot
